@@ -1174,3 +1174,43 @@ NASTY_DOC = ['"quoted"', "'single'", "*/", "//", "</summary>", "&amp;", "<b>", "
 
 def generate(rng: random.Random, profile: Optional[Profile] = None) -> Model:
     return Generator(rng, profile).generate()
+
+
+def shuffle_class_order(text: str, rng: random.Random) -> str:
+    """
+    Permute the definitions of the enumerations and constrained primitives of a
+    meta-model text among themselves, leaving everything else in place.
+
+    The front end resolves bases and property types by name, so the permuted text
+    denotes the same meta-model even though it is no longer executable Python as it
+    stands (:mod:`vf.pyexec` re-orders bases first before executing).
+    """
+    import ast
+
+    from vf import pyexec
+
+    tree = ast.parse(text)
+    lines = text.splitlines(keepends=True)
+    pm = pyexec.PyModel(text, execute=False)
+    blocks = []  # (start, end) 0-based line ranges of ClassDef statements incl. decorators
+    for node in tree.body:
+        # Only enumerations and constrained primitives are permuted: for classes with
+        # constructors the pinned front end demands the bases first (it reports inherited
+        # properties as uninitialised otherwise), and a base defined later is not Python.
+        if isinstance(node, ast.ClassDef) and (pm.is_enum(node.name) or pm.is_constrained_primitive(node.name)):
+            start = min([node.lineno] + [d.lineno for d in node.decorator_list]) - 1
+            blocks.append((start, node.end_lineno))
+    if len(blocks) < 2:
+        return text
+    texts = ["".join(lines[a:b]) for a, b in blocks]
+    order = list(range(len(blocks)))
+    rng.shuffle(order)
+    out = []
+    cursor = 0
+    for k, (a, b) in enumerate(blocks):
+        out.append("".join(lines[cursor:a]))
+        chunk = texts[order[k]]
+        out.append(chunk if chunk.endswith("\n") else chunk + "\n")
+        cursor = b
+    out.append("".join(lines[cursor:]))
+    return "".join(out)
